@@ -23,8 +23,33 @@ def units(tier):
                                   "finite (op) finite is exact on the ghost value"],
              assumptions=["finite x finite double dispatch and 'float op finite never returns an exact number' are not covered",
                           "RealDouble/ComplexDouble operands hold finite values"])
-    return [u]
+    return [u, float_unit()]
+
+FTOK = [R('RCP<const Number>', 'RCPNumber', n='*', why="RCP<const Number> -> raw pointer typedef"),
+        R(r'make_rcp<const (\w+)>\(', r'mk_\1(', n='*', regex=True, why="make_rcp<T>(...) -> stub constructor recording the class of the result"),
+        R(r'is_a<(\w+)>\(', r'is_a_\1(', n='*', regex=True), R(r'down_cast<const (\w+) &>\(', r'as_\1(', n='*', regex=True),
+        R('std::complex<double>(', 'cdouble_of(', n='*', why="std::complex<double>(re, im) -> opaque complex stub"),
+        R(r'\) const override\b', ') const', n='*', regex=True, why="'override' is rejected by the front end"),
+        R(r'throw (\w+)\(((?:[^;()"]|"[^"]*"|\([^()]*\))*)\);', r'VERIF_THROW(\1);', n='*', regex=True)]
+
+def float_unit():
+    rd = Piece('symengine/real_double.h', r'^    RCP<const Number> addreal\(const Integer &other\) const',
+               region_end=r'RCP<const Number> rdiv\(const Number &other\) const override\s*\{[\s\S]*?\n    \}', rules=FTOK,
+               name='RealDouble: members addreal(Integer) .. rdiv(Number) [one verbatim region of the class body]')
+    cd = Piece('symengine/complex_double.h', r'^    RCP<const Number> addcomp\(const Integer &other\) const',
+               region_end=r'RCP<const Number> rdiv\(const Number &other\) const override\s*\{[\s\S]*?\n    \}', rules=FTOK,
+               name='ComplexDouble: members addcomp(Integer) .. rdiv(Number) [one verbatim region of the class body]')
+    ents = [Entry('h_float_ops', defines={'FLOATCLS': k}, route='F', timeout=300, label='h_float_ops_' + nm,
+                  bounds="every kind of the other operand (Integer incl. zero, Rational, Complex, RealDouble, ComplexDouble), every operation add/sub/mul/div/rsub/rdiv, any values")
+            for k, nm in ((3, 'RealDouble'), (4, 'ComplexDouble'))]
+    return Unit('float_ops', 'C06', 'contracts/C06/floatops.cpp', {'rd_members.inc': [rd], 'cd_members.inc': [cd]}, ents, route='F',
+                trusted=["kind-level model: double / std::complex<double> arithmetic and mp_get_d are opaque (any value); make_rcp<RealDouble/ComplexDouble>, number() record the class of the result",
+                         "the exact classes forward x.op(float) to float.op/rop(x) (integer.h, rational.h, complex.h: not under contract)"],
+                assumptions=["values of floating-point results are not judged (C12 territory); pow/rpow of the float classes are not under contract"])
 
 def replay_args(obl, inputs, res):
+    if 'float_op_finite' in obl:
+        e = res.get('_e'); d = e.defines if e else res.get('defines', {})
+        return [obl, 'FLOATCLS=%s' % d.get('FLOATCLS', 3)] + (['kf=1'] if res.get('_nokf') else []) + ['%s=%s' % (k, inputs[k].get('data')) for k in ('kb', 'op', 'BI.zero_') if k in inputs]
     keep = ('a_type', 'a_cls', 'a_v', 'b_type', 'b_cls', 'b_v', 'op', 'left', 'r')
     return [obl] + ["%s=%s" % (k, v.get("binary") or v.get("data")) for k, v in sorted(inputs.items()) if k in keep]
